@@ -47,6 +47,7 @@ func (fc *FuncCtx) overflowCheck(fr *Frame, st *State, r string, t types.Type, p
 		return
 	}
 	if fr.con != nil && fr.con.Flags["nooverflow"] != "" {
+		fc.u.Assumptions["machine integers treated as mathematical in "+fr.con.Key+" (flag nooverflow "+fr.con.Flags["nooverflow"]+")"] = true
 		return
 	}
 	fc.oblige(fr, st, "safety.overflow", "", fc.rangeFact(r, t), pos, "integer result stays within the range of "+t.String()+" (so mathematical and machine arithmetic agree)")
